@@ -861,6 +861,8 @@ def base_maps(rng, spec, tier):
         maps.append(("gen:%d" % i, data))
     data, _ = gen.gen("editor", "mrgn-full")
     maps.append(("gen:mrgn-full", data))
+    data, _ = gen.gen("valid", "no-anywhere")       # a map whose location table has no entry 64 ("Anywhere")
+    maps.append(("gen:no-anywhere", data))
     return maps
 
 
@@ -970,6 +972,12 @@ def _special_histories(author, rng, have):
         stored_all = [Obj(**{k2: (list(v2) if isinstance(v2, list) else v2) for k2, v2 in c.items()}) for c in pool2]
         out.append(("equal sets on two slots nobody refers to, then a new set",
                     [{"op": "setuprp", "cuwps": stored_all + [tw(free2[0]), tw(free2[-1])]}, {"op": "addtrigs", "trigs": [{"conds": [], "acts": [e], "players": [1]}]}], "single", False))
+    # a location that carries number 64 on a map whose table has no entry 64: it is placed there like any other
+    if 64 not in author.view["locs"]:
+        l64 = Obj(k="loc", x1=0, y1=0, x2=2048, y2=2048, name=b"my own 64", idx=64, el=[True] * 6)
+        e = author.entry("a", 28)
+        e["args"] = [(a, (l64 if v["k"] == "loc" else v)) for a, v in e["args"]]
+        out.append(("a location carrying number 64 on a map without an entry 64", [{"op": "addtrigs", "trigs": [{"conds": [], "acts": [e], "players": [3]}]}], "single", False))
     # objects carrying the LAST number of their table (location 255, unit-property set 64, switch 255)
     acts = []
     if 255 not in author.view["locs"] and len(author.view["locs"]) < 250:
